@@ -431,6 +431,11 @@ func commonIterationX(c *core.Ctx, s *Stage, g *Goroutine, h *ssa.BasicBlock, nA
 		}
 	}
 	for _, f := range elem {
+		// leaving on an observed cancellation before the element was applied (a poll ahead of the work) is allowed: the
+		// element is dropped together with everything after it, what was delivered stays a prefix
+		if len(f.applies) == 0 && f.done && f.p.To == nil && f.p.Exit == ir.ExitReturn && len(allSends(f.p)) == outputSendsAllowedOnClose(s) {
+			continue
+		}
 		if len(f.applies) != nApply {
 			ok = false
 			c.Fail("iteration", s.Name, f.recv.Pos(), "the user function is applied %d times for one element (want %d):\n%s", len(f.applies), nApply, f.p)
@@ -730,7 +735,13 @@ func iterTake(c *core.Ctx, s *Stage, g *Goroutine, h *ssa.BasicBlock) {
 	// budget rule [D-iii]: budget >= 1 at every receive; an exit that follows neither a closed input nor a
 	// cancellation happens only with budget == 0
 	isRecv := func(st *ir.Step) bool { return st.Kind == ir.KRecv && isInputChan(st.A[0]) }
-	res := runIntervals(g.An, Itv{0, PosInf}, q, func(st *ir.Step) bool { return isRecv(st) || st.Kind == ir.KReturn })
+	// what the stage function established about n before it started the goroutine (a shortcut `if n <= 0 { close(out);
+	// return out }` ahead of the go statement) is known at the goroutine's entry
+	entry := Itv{0, PosInf}
+	if spawnGuardsNonZero(s, &proc{name: g.Name, fn: g.Fn, an: g.An, g: g}, &ir.Term{Op: "param", Aux: ints[0].Name(), Src: ints[0]}) {
+		entry = Itv{1, PosInf}
+	}
+	res := runIntervals(g.An, entry, q, func(st *ir.Step) bool { return isRecv(st) || st.Kind == ir.KReturn })
 	okB := false
 	for _, p := range g.An.AllPaths() {
 		f := factsOf(p)
